@@ -501,6 +501,33 @@ func runC14(r *Run) {
 	r.Exhaust = true
 	r.Extra["exhaustive_scope"] = fmt.Sprintf("the complete table of %d response-file contents (every content class) x exit {0,1} x {validating, mutating} binding, each asked on the registered path, with a trailing slash, on a non-registered spelling and with a garbage body", len(table))
 
+	if r.Thorough() {
+		// every pair of single-binding hooks over a pool of names that collide in several ways
+		pool := []c14Binding{{"v", "my.hook.ex.io"}, {"v", "my-hook.ex.io"}, {"v", "other.ex.io"}, {"m", "myHook.ex.io"},
+			{"m", "my.hook.ex.io"}, {"m", "my-hook-ex-io"}, {"m", "MY.HOOK.EX.IO"}, {"m", "my hook ex io"}, {"m", "other.ex.io"},
+			{"m", "a//b"}, {"m", "a/b"}, {"m", "a/B"}}
+		mk := func(tag string, allow bool) c14Outcome {
+			k := "d"
+			if allow {
+				k = "a"
+			}
+			return c14Outcome{Kind: k, Msg: "from " + tag, Content: fmt.Sprintf(`{"allowed":%v,"message":"from %s"}`, allow, tag)}
+		}
+		r.Cases(5000, len(pool)*len(pool), 0, func(c *Case, _ *Rng) {
+			k := c.Idx - 5000
+			b1, b2 := pool[k%len(pool)], pool[k/len(pool)]
+			h1 := c14Hook{ID: 1, Bindings: []c14Binding{b1}, Out: map[string]c14Outcome{b1.Name: mk("h1", true)}}
+			h2 := c14Hook{ID: 2, Bindings: []c14Binding{b2}, Out: map[string]c14Outcome{b2.Name: mk("h2", false)}}
+			c.Desc = fmt.Sprintf("pairs: hook 1 %s %q, hook 2 %s %q", b1.Kind, b1.Name, b2.Kind, b2.Name)
+			c14RunCase(r, c, []c14Hook{h1, h2}, []c14Req{
+				{c14RegisteredPath(b1.Name), "ok", fmt.Sprintf("p-%d-1", k)},
+				{c14RegisteredPath(b2.Name), "ok", fmt.Sprintf("p-%d-2", k)},
+				{"/hooks/a/b", "ok", fmt.Sprintf("p-%d-3", k)}})
+			c.Note("case:pairs")
+		})
+		r.Extra["exhaustive_pairs"] = fmt.Sprintf("all %d ordered pairs of single-binding hooks over %d names/kinds that collide after SafeURLString in several ways", len(pool)*len(pool), len(pool))
+	}
+
 	// ---- differential: SafeURLString / detectConfigurationAndWebhook
 	r.Cases(50, r.N(40, 400), 0, func(c *Case, rng *Rng) {
 		var names, paths []string
